@@ -29,9 +29,12 @@ func init() {
 			"truncation of generated programs at EVERY byte offset (and of corpus scripts at a stride); escapes, long brackets and numerals cut mid-way; reserved words in identifier position; goto/label shapes; nesting families ((, {, -, not, #, .., do, function, if, index/call chains) at depths 1e2..1e4 (quick) / 1e6 (thorough); shebang/empty files through LoadFile. " +
 			"Oracle per input: LoadString returns a function, or an *ApiError of type ApiErrorSyntax; no Go panic, no worker death; loading the same bytes twice gives the same class and message; " +
 			"every rendering (canonical, wild layouts with CR/LF/CRLF, comments, semicolons, neutral parentheses, long strings) of a generated valid program loads, and all renderings of one program behave identically when run. " +
+			"a fixed program whose line ends sit in long strings, after a backslash, in a block comment and between statements is shifted byte by byte across the scanner reader's 4096/8192(/12288)-byte refills with LF, CRLF, LFCR and CR line ends: it must load and behave as the LF rendering; " +
+			"deep families (conditions: not/and/or/< chains in if/while/until; flat chains of + mixed arithmetic == or; elseif, index, call, method chains) at 10^6 terms (thorough also 3*10^6) with the worker's goroutine stack limited to 64 MB so that recursion without the syntax-level guard overflows at a 4 MB input; " +
 			"non-trivial = input >= 8 bytes whose outcome is not a rejection of the very first token; distinct by input hash",
 		Assumptions: []string{
 			"'never hangs' is restated as: the worker finishes inside a generous wall-clock watchdog; a firing is inconclusive",
+			"the guarded recursion of the loader (10000 syntax levels) needs less than 8 MB of goroutine stack on every nesting family (measured with debug.SetMaxStack 4/8/16 MB); the workers run with a 64 MB limit (Go's default is 1 GB), which makes unbounded recursion show at 10^6 levels instead of 4*10^6",
 			"the renderer internal/last only produces texts of the Lua 5.1 grammar (+goto); its layouts are meaning-preserving by construction",
 		},
 		CrashIsViolation: true,
